@@ -190,6 +190,19 @@ theorem render_sites_empty : Gen.Render.riskySites = [] := by decide
 
 theorem render_impls_scanned : 30 ≤ Gen.Render.renderImpls := by decide
 
+/-- the reviewed callees of the rendering code: the formatting macros and `Display::fmt` (a `fmt::Error`
+    can only come from the writer), `Option::map_or_else` / `ToString::to_string` / `format!` (allocation
+    only), `hex::encode` (total on byte slices), `libm::round` (total on `f64`) -/
+def renderAllowedCalls : List String :=
+  [".map_or_else", ".to_string", "fmt", "format!", "hex::encode", "libm::round", "write!", "writeln!"]
+
+/-- **White list of callees**: every function, method or macro called inside an `impl fmt::Display` /
+    hand-written `impl fmt::Debug` of the decoder (list regenerated from the source on every run; enum
+    constructors and patterns excluded) is one of the reviewed non-panicking callees.  Complements the black
+    list `render_sites_empty`: a call that list does not know (`split_at`, `repeat`, `rem_euclid`,
+    `borrow_mut`, a helper of the crate that indexes …) breaks this obligation. -/
+theorem render_calls_allowed : ∀ c ∈ Gen.Render.calls, c ∈ renderAllowedCalls := by decide
+
 /-- determinism: the MODEL is a function, which says nothing about hidden state in the Rust code; for the
     implementation this clause is checked by the harness only (every input decoded twice, and the
     history-determinism oracle: f, a one-byte neighbour g, f again, each compared with its decoding right
